@@ -994,9 +994,11 @@ fn refetched_paths_with_path<TCompilationProfile: CompilationProfile>(
                         let client_object_selectable = client_object_selectable.lookup(db);
                         let parent_object_entity_name = client_object_selectable.parent_entity_name;
                         let client_object_selectable_name = client_object_selectable.name;
+                        // The pointer's own selection set is declared on the pointer's parent
+                        // type (not on the type it points to).
                         let new_paths = refetched_paths_with_path(
                             db,
-                            client_object_selectable.target_entity.inner().0,
+                            parent_object_entity_name,
                             selectable_reader_selection_set(
                                 db,
                                 parent_object_entity_name,
